@@ -1,16 +1,20 @@
 #!/bin/bash
-# usage: tools/try_seed.sh <patch.diff> <check id>...   — applies a seeded change to /repo, runs quick checks, reverts.
+# usage: tools/try_seed.sh <patch.diff> <check id>...
+# Applies a seeded change to a scratch worktree of /repo (never to /repo itself), runs the quick checks
+# against that worktree (VERIF_REPO), removes the worktree. Evidence of trial runs goes to /tmp.
 set -u
 patch="$1"; shift
-cd /repo || exit 2
-if [ -n "$(git status --porcelain)" ]; then echo "/repo not clean"; exit 2; fi
-if ! git apply --3way "$patch" 2>/tmp/apply.err && ! git apply "$patch" 2>>/tmp/apply.err; then echo "patch does not apply"; cat /tmp/apply.err; git checkout -- . ; exit 2; fi
-git reset -q 2>/dev/null
+wt=$(mktemp -d /tmp/seedtrial.XXXXXX)
+rmdir "$wt"
+git -C /repo worktree add -q --detach "$wt" HEAD || exit 2
+cleanup() { git -C /repo worktree remove --force "$wt" 2>/dev/null; }
+trap cleanup EXIT
+cd "$wt" || exit 2
+if ! git apply --3way "$patch" 2>/tmp/apply.err && ! git apply "$patch" 2>>/tmp/apply.err; then echo "patch does not apply"; cat /tmp/apply.err; exit 2; fi
 for id in "$@"; do
-  out=$(cd /verif && VERIF_EVIDENCE_DIR=/tmp/seed_evidence ./check "$id" --tier quick 2>&1)
+  out=$(cd /verif && VERIF_REPO="$wt" VERIF_EVIDENCE_DIR=/tmp/seed_evidence ./check "$id" --tier quick 2>&1)
   rc=$?
   nv=$(echo "$out" | grep -c '^VIOLATION')
   echo "== $id exit=$rc violations=$nv"
   echo "$out" | grep -A4 '^VIOLATION' | head -12 | cut -c1-300
 done
-git checkout -- . ; git clean -fdq
